@@ -87,7 +87,7 @@ func run(t *rapid.T, deterministic bool) {
 	w.SelectAll(t, rec, 6)
 
 	t.Repeat(w.Actions(rec, mach.Hooks{
-		Weights: map[string]int{"store": 2, "release": 2, "connFlags": 1, "connBoxes": 1, "connCreate": 1},
+		Weights: map[string]int{"store": 3, "fetch": 2, "release": 2, "connFlags": 1, "connBoxes": 1, "connCreate": 1},
 		Extra: map[string]func(*rapid.T){
 			"quiesce": func(t *rapid.T) { quiesce(t, w, rec); rec.Op("quiesce") },
 		},
